@@ -381,6 +381,7 @@ def step (m : MState) (e : TEv) : MState :=
         | none => (w0.tombs.lookup x.cfg.key).getD 0
       if rev ≠ 0 ∧ rev < newest then { m with w := w0.setInst { x with lastStaleWev := e.t } } else { m with w := w0 }
   | .wdrop _ _ _ => { m with w := w0 }
+  | .site _ _ => { m with w := w0 }
   | .flag i b il tok lid =>
     match w0.inst? i with
     | none => { m with w := w0 }
